@@ -162,7 +162,6 @@ let handle (line : String.t) : String.t =
   | "fields" -> "ok " ^ names M.model_fields
   | "runmutable" -> "ok " ^ names M.run_mutable
   | "obs" -> let en = rd_entry t in "ok " ^ names (M.obs_fields en)
-  | "obspartial" -> let en = rd_entry t in "ok " ^ names (M.obs_fields_partial en)
   | "new" -> let e = rd_env t in let pc = rd_pc t in ok_state (M.m_newInterp e pc)
   | "resetcore" -> ok_state (M.m_resetCore (rd_state t))
   | "resetvars" -> ok_state (M.m_resetVars (rd_state t))
